@@ -1518,8 +1518,19 @@ func (c09) Run(plan interface{}, schedSeed uint64, replay []simrt.Choice, lenien
 			}
 			return
 		}
-		if len(obs.sent) == 0 {
-			v.Machinery = "the client sent nothing"
+		if len(obs.sent) == 0 || (obs.loginErr != nil && len(obs.sent[0].Body) == 2 && obs.sent[0].Body[0] == 0x71 && obs.sent[0].Type != peer.BufLogin) {
+			// (a first message that is the LOGOUT of the harness's Close: Login itself wrote nothing)
+			if obs.loginErr == nil {
+				v.Machinery = "the client sent nothing"
+				return
+			}
+			// Login gave up before it wrote anything: what it says must still not contain a secret
+			for si, s := range secrets {
+				if len(s) >= 8 && strings.Contains(obs.loginErr.Error(), string(s)) {
+					v.Violate("leak-in-error", "password in login error", "%s: the error returned by Login (which sent nothing) contains secret #%d: %s", where, si, short(obs.loginErr.Error(), 200))
+				}
+			}
+			v.Probe("login-failed-before-sending")
 			return
 		}
 		configured := map[string]string{"lhostname": p.Host, "lusername": user, "lappname": p.App}
